@@ -31,6 +31,10 @@ class HarnessError(Exception):
     """The machinery itself is wrong or was used wrongly (never a verdict)."""
 
 
+class ConfigRejected(Exception):
+    """The code under test refused to construct the model of a generated configuration."""
+
+
 class Interrupt(BaseException):
     """Injected asynchronous interruption (Ctrl-C / failed allocation)."""
 
@@ -301,7 +305,12 @@ def run_generated(world_cls, seed, tier):
     t0 = time.perf_counter()
     streams = {n: prng.Stream(seed, n) for n in ("cfg", "sched", "data", "fault")}
     cfg = world_cls.gen_config(streams["cfg"], tier)
-    world = world_cls(cfg)
+    try:
+        world = world_cls(cfg)
+    except (HarnessError, Violation):
+        raise
+    except Exception as e:   # noqa: BLE001 - a constructor of the code under test raised
+        raise ConfigRejected("%s: %s" % (type(e).__name__, str(e)[:200]))
     log = EventLog()
     log.add("cfg", cfg)
     ops = []
